@@ -293,54 +293,66 @@ Definition conv (ct : ity) (z : Z) : Z := if signed ct then z else z mod 2 ^ wid
 Definition lang_rel (op : relop) (ta : oty) (za : Z) (tb : oty) (zb : Z) : bool :=
   let ct := common (promote ta) (promote tb) in rel op (conv ct za) (conv ct zb).
 
-(* is the predicate named by the check true? *)
+(* is the predicate named by the check true?  (one function per family, so that statements about integer or string
+   checks do not mention the floating-point library) *)
+Definition holds_int2 (k : k2) (ta : oty) (za : Z) (tb : oty) (zb : Z) : bool :=
+  match named k with
+  | Some t => owrap t za =? owrap t zb
+  | None => match k with
+            | C_BOOL => Bool.eqb (owrap (OI TInt) za =? 0) (owrap (OI TInt) zb =? 0)
+            | _ => lang_rel REq ta za tb zb
+            end
+  end.
+Definition holds_bool1 (k : k1) (z : Z) : bool :=
+  match k with
+  | K_CHECK_FALSE => z =? 0
+  | K_CHECK_C => negb (owrap (OI TInt) z =? 0)
+  | _ => negb (z =? 0)
+  end.
+Definition holds_dbl (e a t : dbl) : bool :=
+  if d_is_nan e || d_is_nan a || d_is_nan t then false
+  else if d_is_inf e || d_is_inf a then
+    (d_is_inf e && d_is_inf a && Bool.eqb (d_sign e) (d_sign a)) || (d_is_inf t && negb (d_sign t))
+  else d_le (d_abs (d_minus e a)) t.          (* finite operands: |e - a| <= t in binary64 arithmetic *)
+Definition holds_str (k : ks) (e a : option (list N)) (n : N) : bool :=
+  match e, a with
+  | None, None => true
+  | None, _ | _, None => false
+  | Some e, Some a =>
+      let e := cut_nul e in let a := cut_nul a in
+      match k with
+      | K_STRCMP | K_C_STRING => bytes_eqb e a
+      | K_STRNCMP => bytes_eqb (take n e) (take n a)
+      | K_NOCASE => bytes_eqb (lower e) (lower a)
+      | K_CONTAINS => contains a e
+      | K_NOCASE_CONTAINS => contains (lower a) (lower e)
+      end
+  end.
+Definition holds_mem (e a : option (list N)) (n : N) : bool :=
+  (n =? 0)%N ||
+  match e, a with
+  | None, None => true
+  | None, _ | _, None => false
+  | Some e, Some a => bytes_eqb (take n e) (take n a)
+  end.
+Definition holds_bits (c : bool) (ze za zm : Z) : bool :=
+  let w := if c then 32 else 64 in
+  Z.land (ze mod 2 ^ w) (zm mod 2 ^ w) =? Z.land (za mod 2 ^ w) (zm mod 2 ^ w).
+Definition holds_throws (w : thrown) : bool := match w with ThrowsExpected => true | _ => false end.
+
 Definition holds (c : check) : bool :=
   match c with
-  | Int2 k ta za tb zb =>
-      match named k with
-      | Some t => owrap t za =? owrap t zb
-      | None => match k with
-                | C_BOOL => Bool.eqb (owrap (OI TInt) za =? 0) (owrap (OI TInt) zb =? 0)
-                | _ => lang_rel REq ta za tb zb
-                end
-      end
-  | Bool1 K_CHECK_FALSE _ z => z =? 0
-  | Bool1 K_CHECK_C _ z => negb (owrap (OI TInt) z =? 0)
-  | Bool1 _ _ z => negb (z =? 0)
+  | Int2 k ta za tb zb => holds_int2 k ta za tb zb
+  | Bool1 k _ z => holds_bool1 k z
   | EqualZero t z => lang_rel REq (OI TInt) 0 t z
   | Compare op ta za tb zb => lang_rel op ta za tb zb
   | Enums u _ za zb => owrap u za =? owrap u zb
   | Ptr _ e a => e =? a
-  | Dbl _ e a t =>
-      if d_is_nan e || d_is_nan a || d_is_nan t then false
-      else if d_is_inf e || d_is_inf a then
-        (d_is_inf e && d_is_inf a && Bool.eqb (d_sign e) (d_sign a)) || (d_is_inf t && negb (d_sign t))
-      else d_le (d_abs (d_minus e a)) t           (* finite operands: |e - a| <= t in binary64 arithmetic *)
-  | Str k e a n =>
-      match e, a with
-      | None, None => true
-      | None, _ | _, None => false
-      | Some e, Some a =>
-          let e := cut_nul e in let a := cut_nul a in
-          match k with
-          | K_STRCMP | K_C_STRING => bytes_eqb e a
-          | K_STRNCMP => bytes_eqb (take n e) (take n a)
-          | K_NOCASE => bytes_eqb (lower e) (lower a)
-          | K_CONTAINS => contains a e
-          | K_NOCASE_CONTAINS => contains (lower a) (lower e)
-          end
-      end
-  | Mem _ e a n =>
-      (n =? 0)%N ||
-      match e, a with
-      | None, None => true
-      | None, _ | _, None => false
-      | Some e, Some a => bytes_eqb (take n e) (take n a)
-      end
-  | Bits c _ ze _ za zm =>
-      let w := if c then 32 else 64 in
-      Z.land (ze mod 2 ^ w) (zm mod 2 ^ w) =? Z.land (za mod 2 ^ w) (zm mod 2 ^ w)
-  | Throws w => match w with ThrowsExpected => true | _ => false end
+  | Dbl _ e a t => holds_dbl e a t
+  | Str k e a n => holds_str k e a n
+  | Mem _ e a n => holds_mem e a n
+  | Bits c _ ze _ za zm => holds_bits c ze za zm
+  | Throws w => holds_throws w
   | Fail => false
   end.
 
